@@ -138,7 +138,7 @@ func InnermostFuncBody(fd *ast.FuncDecl, n ast.Node) *ast.BlockStmt {
 func FeatureBit(info *types.Info, conds []string) func(Fact) uint64 {
 	return func(ft Fact) uint64 {
 		t := AsFeatureTest(info, ft.Cond)
-		if t == nil || !ft.Positive {
+		if t == nil || ft.Positive == t.Flip {
 			return 0
 		}
 		for i, c := range conds {
